@@ -53,4 +53,38 @@ def run (t : List String) : String :=
     ",".intercalate first ++ " | " ++ ",".intercalate follow
   | _ => "bad-op"
 
+/-- `rqcut <clones> <outages>`: in every round all clones call (ids from the shared counter, which survives the
+    reconnection), then every reply arrives: each call ends with its own reply (`c04_own_reply`, `c04_ids_distinct`).
+    Throw-away calls between rounds consume ids too. -/
+def runCut (t : List String) : String :=
+  match t with
+  | [clones, outages] =>
+    let c := nat! clones
+    let rounds := nat! outages + 1
+    let step := fun (acc : Rq × List String) (k : Nat) =>
+      let s := acc.1
+      -- throw-away calls after an outage, answered at once
+      let s := if k = 0 then s else (List.range c).foldl (fun s _ => (s.call).arrive { reqId := some (s.nextId % U32), payload := [] }) s
+      let base := s.calls.length
+      let s := (List.range c).foldl (fun s _ => s.call) s
+      let ids := (s.calls.drop base).map (·.id)
+      let s := ids.foldl (fun s id => s.arrive { reqId := some id, payload := [] }) s
+      let outs := (s.calls.drop base).map fun cl => match cl.state with | .done _ => "ok" | .timedOut => "timeout" | .waiting => "waiting"
+      (s, acc.2 ++ outs)
+    ",".intercalate ((List.range rounds).foldl step (Rq.run [], [])).2
+  | _ => "bad-op"
+
+/-- `rqreuse <n>`: per round a call that times out (its reply comes after the requestor is gone and is dropped:
+    `c04_late_reply_dropped`; the next requestor has a different routing id: `c02_origin_tag` / `next_id`), then a
+    fresh requestor whose two calls are answered. -/
+def runReuse (t : List String) : String :=
+  match t with
+  | [n] => ",".intercalate ((List.range (nat! n)).flatMap fun _ =>
+      let a := ((Rq.run [.call]).step (.timeout 0))
+      let sa := match (a.calls[0]?).map (·.state) with | some .timedOut => "timeout" | some (.done _) => "ok" | _ => "waiting"
+      let b := ((Rq.run [.call]).arrive { reqId := some 0, payload := [] })
+      let b2 := (b.call).arrive { reqId := some 1, payload := [] }
+      [sa] ++ b2.calls.map fun cl => match cl.state with | .done _ => "ok" | .timedOut => "timeout" | .waiting => "waiting")
+  | _ => "bad-op"
+
 end Driver.ReqClient
